@@ -241,6 +241,7 @@ func (b *boundsClient) factForms(st *State) []*linForm {
 
 func (b *boundsClient) factForms0(st *State) []*linForm {
 	var fs []*linForm
+	var neq [][2]*Term
 	var keys []string
 	for _, k := range sortedFactKeys(st) {
 		keys = append(keys, k)
@@ -259,6 +260,9 @@ func (b *boundsClient) factForms0(st *State) []*linForm {
 				fs = append(fs, c.add(a, -1))
 			}
 		case "eq":
+			if !v && isIntLike(t.Args[0]) && isIntLike(t.Args[1]) {
+				neq = append(neq, [2]*Term{t.Args[0], t.Args[1]})
+			}
 			if !v {
 				// x != 0 for a length: x >= 1
 				for i := 0; i < 2; i++ {
@@ -276,6 +280,24 @@ func (b *boundsClient) factForms0(st *State) []*linForm {
 			}
 			a, c := b.lin(st, t.Args[0]), b.lin(st, t.Args[1])
 			fs = append(fs, a.add(c, -1), c.add(a, -1))
+		}
+	}
+	// x != y together with x <= y (from the other facts) gives x < y
+	base := fs
+	for _, pr := range neq {
+		a, c := b.lin(st, pr[0]), b.lin(st, pr[1])
+		d := a.add(c, -1)
+		if len(d.coef) == 0 {
+			continue
+		}
+		if proveDepth(base, d, 1) {
+			f := a.add(c, -1)
+			f.c++
+			fs = append(fs, f)
+		} else if proveDepth(base, c.add(a, -1), 1) {
+			f := c.add(a, -1)
+			f.c++
+			fs = append(fs, f)
 		}
 	}
 	return fs
@@ -362,7 +384,12 @@ func shares(f, g *linForm) bool {
 
 // prove goal <= 0 from at most three facts (bounded Fourier-Motzkin step).
 func (b *boundsClient) prove(st *State, goal *linForm) bool {
-	facts := b.factForms(st)
+	return proveFrom(b.factForms(st), goal)
+}
+
+func proveFrom(facts []*linForm, goal *linForm) bool { return proveDepth(facts, goal, 3) }
+
+func proveDepth(facts []*linForm, goal *linForm, maxDepth int) bool {
 	lo, hi := atomBounds(facts)
 	if triviallyNonPos(goal, lo, hi) {
 		return true
@@ -391,7 +418,7 @@ func (b *boundsClient) prove(st *State, goal *linForm) bool {
 		}
 		return false
 	}
-	return rec(goal, 3)
+	return rec(goal, maxDepth)
 }
 
 func (b *boundsClient) obligation(st *State, fr *Frame, ins ssa.Instruction, what string, goal *linForm) {
@@ -614,6 +641,8 @@ func (b *boundsClient) SafeConv(x *Exec, st *State, v *Term, fromBits int, fromS
 // the entry value and for every back-edge value, dropped when they fail.
 
 type invCand struct {
+	le   bool   // "phi <= len(base)" instead of "phi < len(base)"
+	sib  string // for le: the "<" candidate it weakens; tried only once that one has been dropped
 	phi  string
 	base ssa.Value // "phi < len(base)"; nil for "len(phi) <= len(entry value of phi)"
 	key  string
@@ -623,9 +652,14 @@ func (b *boundsClient) candAtom(x *Exec, st *State, fr *Frame, c invCand, v *Ter
 	return tLt(v, mk("len", "", types.Typ[types.Int], x.val(fr, c.base)))
 }
 
+// candAtomNeg: the atom whose negation is the candidate "phi <= len(base)".
+func (b *boundsClient) candAtomNeg(x *Exec, st *State, fr *Frame, c invCand, v *Term) *Term {
+	return tLt(mk("len", "", types.Typ[types.Int], x.val(fr, c.base)), v)
+}
+
 func (b *boundsClient) OnLoopHead(x *Exec, st *State, fr *Frame, loopID string, phis map[string]*Term) {
 	for _, c := range b.cands[loopID] {
-		if b.dropped[loopID][c.key] {
+		if b.dropped[loopID][c.key] || (c.le && !b.dropped[loopID][c.sib]) {
 			continue
 		}
 		v, ok := phis[c.phi]
@@ -638,13 +672,17 @@ func (b *boundsClient) OnLoopHead(x *Exec, st *State, fr *Frame, loopID string, 
 			}
 			continue
 		}
+		if c.le {
+			st.setFact(b.candAtomNeg(x, st, fr, c, v), false)
+			continue
+		}
 		st.setFact(b.candAtom(x, st, fr, c, v), true)
 	}
 }
 
 func (b *boundsClient) OnLoopEdge(x *Exec, st *State, fr *Frame, loopID string, vals map[string]*Term, entry bool) {
 	for _, c := range b.cands[loopID] {
-		if b.dropped[loopID][c.key] {
+		if b.dropped[loopID][c.key] || (c.le && !b.dropped[loopID][c.sib]) {
 			continue
 		}
 		v, ok := vals[c.phi]
@@ -671,7 +709,9 @@ func (b *boundsClient) OnLoopEdge(x *Exec, st *State, fr *Frame, loopID string, 
 		}
 		base := x.val(fr, c.base)
 		g := b.lin(st, v).add(b.linLen(st, base), -1)
-		g.c++
+		if !c.le {
+			g.c++
+		}
 		if !b.prove(st, g) {
 			if b.dropped[loopID] == nil {
 				b.dropped[loopID] = map[string]bool{}
@@ -727,6 +767,7 @@ func candidateInvariants(fn *ssa.Function, x *Exec) map[string][]invCand {
 							}
 							if !dup {
 								res[id] = append(res[id], invCand{phi: ph.Name(), base: base, key: k})
+								res[id] = append(res[id], invCand{le: true, sib: k, phi: ph.Name(), base: base, key: ph.Name() + "<=len(" + base.Name() + ")"})
 							}
 						}
 					}
@@ -810,15 +851,29 @@ func boundsFunctions(p *Program) []string {
 	}
 	frozen := map[string]bool{}
 	// predicates handed to sort.Search by a selected function index through their helpers
+	inContext := map[string]bool{}
 	for f := range reach {
 		for _, ci := range callsDirect(f, "sort.Search") {
 			if mc, ok := ci.Common().Args[1].(*ssa.MakeClosure); ok {
-				if g, ok := mc.Fn.(*ssa.Function); ok {
-					sel[funcKey(g)] = true
-					frozen[funcKey(g)] = true
+				g, bound := p.closureTarget(mc)
+				if g == nil {
+					continue
 				}
+				if bound {
+					// a method value: analysed at the sort.Search site, in the
+					// caller's context (boundsCfg), when that is its only use
+					if f.Pkg == g.Pkg && onlyUse(p, g, mc) {
+						inContext[funcKey(g)] = true
+					}
+					continue
+				}
+				sel[funcKey(g)] = true
+				frozen[funcKey(g)] = true
 			}
 		}
+	}
+	for n := range inContext {
+		delete(sel, n)
 	}
 	for _, n := range boundsSet {
 		if p.Func(n) != nil {
@@ -830,6 +885,9 @@ func boundsFunctions(p *Program) []string {
 	// into those callers (with the callers' facts), not on their own
 	covered := map[string]bool{}
 	for n := range sel {
+		covered[n] = true
+	}
+	for n := range inContext {
 		covered[n] = true
 	}
 	for changed := true; changed; {
@@ -864,15 +922,76 @@ func boundsFunctions(p *Program) []string {
 		res = append(res, n)
 	}
 	sort.Strings(res)
+	boundsFrozen, boundsInContext, boundsReach, boundsCG = frozen, inContext, reach, cg
 	return res
+}
+
+// set by boundsFunctions for the driver: the reference functions (always
+// analysed on their own), the method-value predicates analysed at their
+// sort.Search site, the read-path reachability and the call graph
+var (
+	boundsFrozen, boundsInContext map[string]bool
+	boundsReach                   map[*ssa.Function]bool
+	boundsCG                      *callGraph
+)
+
+// onlyUse: the method g is referred to nowhere but in the method value mc.
+func onlyUse(p *Program, g *ssa.Function, mc *ssa.MakeClosure) bool {
+	for _, f := range p.Funcs {
+		for _, b := range f.Blocks {
+			for _, ins := range b.Instrs {
+				if m, ok := ins.(*ssa.MakeClosure); ok {
+					if t, _ := p.closureTarget(m); t == g && m != mc {
+						return false
+					}
+					continue
+				}
+				for _, op := range ins.Operands(nil) {
+					if *op == ssa.Value(g) {
+						return false
+					}
+				}
+			}
+		}
+	}
+	// calls through an interface are not method values of this kind
+	return true
 }
 
 func checkBounds(p *Program, r *Report) {
 	total, okN := 0, 0
-	for _, name := range boundsFunctions(p) {
+	work := boundsFunctions(p)
+	done := map[string]bool{}
+	level := map[string]int{}
+	for wi := 0; wi < len(work); wi++ {
+		name := work[wi]
+		if done[name] {
+			continue
+		}
+		done[name] = true
 		fn := p.MustFunc(name)
 		bc := &boundsClient{r: r, fn: name, cands: nil, dropped: map[string]map[string]bool{}, arrLen: map[string]int64{}}
-		for iter := 0; iter < 4; iter++ {
+		for iter := 0; iter < 8; iter++ {
+			if iter == 7 {
+				// the candidate set did not settle: nothing is assumed in the last round
+				for id, cs := range bc.cands {
+					for _, c := range cs {
+						if bc.dropped[id] == nil {
+							bc.dropped[id] = map[string]bool{}
+						}
+						bc.dropped[id][c.key] = true
+					}
+				}
+				for id, cs := range bc.cands {
+					var keep []invCand
+					for _, c := range cs {
+						if !c.le {
+							keep = append(keep, c)
+						}
+					}
+					bc.cands[id] = keep
+				}
+			}
 			bc.oblOK, bc.oblBad, bc.oblPos = map[string]bool{}, map[string]string{}, map[string]token.Pos{}
 			bc.changed = false
 			bc.simClient = simClient{p: p, cfg: boundsCfg(bc)}
@@ -932,6 +1051,34 @@ func checkBounds(p *Program, r *Report) {
 					}
 				}
 				break
+			}
+		}
+		if len(bc.oblBad) > 0 && !boundsFrozen[name] && level[name] < 2 && !boundsCfg(&boundsClient{fn: "-"}).Opaque[name] {
+			// a helper that is not in range for arbitrary arguments is decided
+			// in the context of each of its callers on the read paths instead
+			// (they are analysed with the helper inlined); its obligations then
+			// appear under the callers
+			var callers []string
+			for g, outs := range boundsCG.edges {
+				if !boundsReach[g] || g == fn {
+					continue
+				}
+				for _, o := range outs {
+					if o == fn {
+						callers = append(callers, funcKey(g))
+					}
+				}
+			}
+			sort.Strings(callers)
+			if len(callers) > 0 {
+				for _, c := range callers {
+					if !done[c] && !boundsInContext[c] && p.Func(c) != nil {
+						level[c] = level[name] + 1
+						work = append(work, c)
+					}
+				}
+				r.ok("BOUNDS", name+" => analysed in the context of its callers", "not in range for arbitrary arguments; decided under "+strings.Join(callers, ", "))
+				continue
 			}
 		}
 		var keys []string
@@ -1049,6 +1196,23 @@ func boundsCfg0(bc *boundsClient) *simCfg {
 			case "sort.Search":
 				// 0 <= result <= n
 				res := x.opaqueResult(fr, site, callee, fnTerm, args)
+				if cl := args[1]; cl.Op == "closure" && strings.HasPrefix(cl.Aux, "bound:") && len(cl.Args) == 1 {
+					// a method value as predicate: sort.Search(n, f) calls f(i) with
+					// 0 <= i < n, so the method is analysed here, in the caller's
+					// context, with such an i; what it writes to its receiver is
+					// unknown afterwards
+					if pf := x.P.Func(strings.TrimPrefix(cl.Aux, "bound:")); pf != nil {
+						i := x.fresh("unk", fr, "i."+siteID(fr, site), types.Typ[types.Int])
+						s2 := st.clone()
+						s2.setFact(tLt(i, tConst("0", nil)), false)
+						s2.setFact(tLt(i, args[0]), true)
+						s2.note(site.Pos(), "sort.Search calls the predicate with 0 <= i < n")
+						x.inline(fr.clone(), s2, site, pf, mk("func", funcKey(pf), nil), []*Term{cl.Args[0], i})
+					}
+					if addressLike(cl.Args[0]) {
+						x.havoc(st, cl.Args[0], mk("site", fr.ctx+"/"+siteID(fr, site), nil, x.curMark()))
+					}
+				}
 				st.setFact(tLt(res, tConst("0", nil)), false)
 				st.setFact(tLt(args[0], res), false)
 				return true, []CallOut{{St: st, Val: res}}
@@ -1078,7 +1242,7 @@ func boundsPreconditions(bc *boundsClient, fn *ssa.Function, st *State, args, fr
 	isSearchPred := false
 	if fn.Parent() != nil {
 		for _, ci := range callsDirect(fn.Parent(), "sort.Search") {
-			if mc, ok := ci.Common().Args[1].(*ssa.MakeClosure); ok && mc.Fn == ssa.Value(fn) {
+			if mc, ok := ci.Common().Args[1].(*ssa.MakeClosure); ok && mc.Fn == ssa.Value(fn) && fn.Synthetic == "" {
 				isSearchPred = true
 			}
 		}
